@@ -22,17 +22,22 @@ CLAIMS = {'C07': {'technique': 'structural sequencing/dominance obligations on t
          'note': 'Structural obligations are syntactic facts about the real text, reported as such. Assumed: rusqlite transaction semantics, '
                  'crsql_peek_next_db_version, tiling of the chunker (proved under C08).'},
  'C09': {'technique': 'Verus contracts on the extracted hand-written speedy decoders (totality stand-ins: panic / reservation / unchecked-UTF-8 obligations) '
-                      'and on the real pack_columns / unpack_columns against a spec of the documented key format; Kani complete proof of the packed-integer '
+                      'and on the real pack_columns / unpack_columns against a spec of the documented key format; Verus contracts on the extracted hand-written '
+                      'writer/reader pairs over a token-stream model of the wire (round trip); Kani complete proof of the packed-integer '
                       'width rule; structural obligation that every Vec<E> decoded by speedy itself has an element of positive minimum encoded size; replay '
                       'searches on the real crate (in a child process for aborts)',
          'text': 'Unbounded proof (any input length) that the four hand-written decoders cannot reach a panic, only reserve memory bounded by a constant or by '
                  "the bytes left in the reader, and only build Text from validated UTF-8; full-domain proof that num_bytes_needed_i64 is the extension's "
                  'minimal big-endian width; unbounded proof that unpack_columns is total and returns exactly what the documented packed-key format decodes to '
                  '(zero-extended integers/lengths) and that pack_columns emits exactly that format for up to 255 columns. A machine-checked lemma composes the '
-                 'two contracts: decoding the encoding of any column list (<= 255 columns) gives back exactly that list. Derived (speedy-derive) codecs, '
-                 'frame-size limits and peak RSS are not decided.',
+                 'two contracts: decoding the encoding of any column list (<= 255 columns) gives back exactly that list. Round trip of the hand-written '
+                 'codecs: the real writers of Changeset, SyncNeedV1, SqliteValue and of the newtypes under them emit exactly the documented token layout and '
+                 'the real readers, handed that layout followed by anything, return the value and leave the rest (lists of any length); the SyncStateV1 '
+                 'writer emits its layout (maps in iteration order, every count the size of the collection that follows). Derived (speedy-derive) codecs, '
+                 'the SyncStateV1 reader, frame-size limits and peak RSS are not decided.',
          'note': 'Assumed: speedy Reader and primitive/derived Readable impls are total and consume their minimum size; generic reader/error types replaced by '
-                 'concrete stand-ins; `bytes` crate as compiled by Kani.'},
+                 'concrete stand-ins; `bytes` crate as compiled by Kani; one token per primitive value stands for speedy\'s own integer / slice / str / '
+                 'Option / Vec / HashMap codecs being mutually inverse and self-delimiting; HashMap iteration order is a function of the map object.'},
  'C15': {'technique': 'Verus contracts on three anchored fragments of the real apply_schema (table-drop guard, per-table column/primary-key rules, new-column '
                       "rules with a ghost DDL log) + structural obligations on apply_schema's statement texts and on execute_schema's "
                       'transaction/commit/assignment order; replay on an in-memory cr-sqlite database',
@@ -97,12 +102,15 @@ CLAIMS = {'C07': {'technique': 'structural sequencing/dominance obligations on t
                  "broadcast targets are other members of the same cluster. End-to-end 'never applies' beyond these sites is not decided.",
          'note': 'Assumed: `.instrument(..).await` on the one awaited write is replaced by a ghost log; speedy default_on_eof; members map contents. The uni '
                  "handler's once-per-connection capture of the cluster id is noted, not covered."},
- 'C17': {'technique': "Verus contract on the extracted require_authz decision fragment and the query endpoint's read-only guard; structural obligations "
-                      '(extractor-discharged) on router/middleware order and guard dominance',
-         'text': 'Proof that the authorisation decision passes iff no token is configured or the header carries exactly the configured token, and rejects with '
-                 '401 otherwise; structural obligations on the real builder chain that every .route() precedes the single authz layer and that the served app '
-                 'is that router; the non-readonly guard returns a client error before any statement execution and dominates every query call.',
-         'note': 'Assumed: axum Router::layer semantics, header parsing, sqlite3_stmt_readonly. Subscription-endpoint SQL (Matcher) is not decided. Structural '
+ 'C17': {'technique': "Verus contract on the whole extracted require_authz middleware and on the query endpoint's read-only guard; structural obligations "
+                      '(extractor-discharged) on router/middleware order, guard dominance and the use of the subscription text',
+         'text': 'Proof that the middleware runs the inner handler iff no token is configured or the header carries exactly the configured token, whatever else '
+                 'of the request it looks at, and rejects with 401 otherwise; structural obligations on the real builder chain that every .route() precedes the single authz layer and that the served app '
+                 'is that router; the non-readonly guard returns a client error before any statement execution and dominates every query call; the text sent '
+                 'to the subscription endpoint is only prepared for its column names and parsed, anything but one SELECT is rejected, and nothing is run on '
+                 "the node's connection while the matcher is built.",
+         'note': 'Assumed: axum Router::layer semantics, header parsing, sqlite3_stmt_readonly, sqlite3_prepare does not run a statement. A SELECT calling an '
+                 'extension function with side effects is not decided. Structural '
                  'obligations are syntactic facts about the real text, reported as such.'},
  'C04': {'technique': 'Verus contracts on anchored fragments of the real SyncStateV1::compute_available_needs (guards, peer-held sets, Full-need loop, tail '
                       "request) and of parallel_sync's request de-duplication (full and partial, nested loop invariants), extracted each run",
@@ -117,7 +125,7 @@ CLAIMS = {'C07': {'technique': 'structural sequencing/dominance obligations on t
                       "add_member's or_insert_with desugared to the entry match); Kani inductive transition contracts on the extracted add_member / "
                       'recalculate_rings / ring0 (bounded state, labelled bounded); replay search on the real crate',
          'text': 'remove_member, add_member (an older or equal identity changes nothing; a newer one replaces address, timestamp and cluster id and re-indexes '
-                 "the address; an unknown peer is listed as announced; other members' identities untouched), add_rtt's sample, MemberState::new and is_ring0 "
+                 "the address; an unknown peer is listed as announced; other members' identities and address-index entries untouched), add_rtt's sample, MemberState::new and is_ring0 "
                  'are proved unbounded in Verus against the newest-identity statement. recalculate_rings and ring0 are closure/iterator chains Verus cannot '
                  'take; they (and add_member again, with its address-index invariant) are checked by Kani as inductive steps from an arbitrary state with <=2 '
                  'members (history length unbounded, state size bounded) and are reported as bounded stand-ins, not as proved.',
